@@ -8,6 +8,7 @@ func verifNondetInt() int
 func verifNondetBool() bool
 func verifNondetRange(lo, hi int) int
 func verifBound(name string) int
+func verifBoundOr(name string, def int) int // optional bound of a shared harness
 func verifAssume(c bool)
 func verifAssert(c bool, label string)
 func verifReach(label string)
